@@ -258,6 +258,7 @@ def main(argv=None):
         specs = list(mod.shards(tier, seed))
         nshards = len(specs)
         budget = getattr(mod, "BUDGET_S", {}).get(tier, 900 if tier == "quick" else 3000)
+        budget = max(budget, 1500 if tier == "quick" else 5400)  # caps are for runaway runs, not for a busy machine
         budget = float(os.environ.get("VERIF_BUDGET_S", budget))
         deadline = t0 + budget
         procs = a.procs or min(os.cpu_count() or 1, 16, max(1, nshards))
@@ -361,6 +362,9 @@ def main(argv=None):
         f"exhaustive={exhaustive} wall={wall:.1f}s violations={n_unknown_total} "
         f"known={sorted(known_hit)}"
     )
+    if total.skipped:
+        print(f"WARNING: wall budget exhausted - {total.skipped} of {nshards} shards were NOT run "
+              "(evidence says exhaustive=false); re-run with VERIF_BUDGET_S=<seconds> on a loaded machine")
     if total.counters:
         print("  counters:", dict(total.counters))
     if total.viol_count:
